@@ -22,7 +22,23 @@ from harness.common import (Param, g_Z, g_N, g_list, g_opt, g_pair, g_bool, g_co
 # the callables that occur in generated configurations
 
 
+FAIL_NOW = [None]  # armed by the harness: a zero-argument function returning the exception to raise
+IN_CALL_HOOK = [None]  # armed by the harness: called from inside a callable (nested-build probe)
+
+
+def maybe_fail():
+  hook = IN_CALL_HOOK[0]
+  if hook is not None:
+    IN_CALL_HOOK[0] = None
+    hook()
+  f = FAIL_NOW[0]
+  if f is not None:
+    FAIL_NOW[0] = None
+    raise f()
+
+
 def _rec(name, loc):
+  maybe_fail()
   r = Recorded(name, dict(loc))
   CALL_LOG.append((name, r))
   return r
@@ -54,6 +70,7 @@ def fg(u, v=1, *, w=2):
 
 class Ka:
   def __init__(self, p=None, q=5):
+    maybe_fail()
     self.fn = type(self).__name__
     self.view = {"p": p, "q": q}
     CALL_LOG.append((self.fn, self))
@@ -75,6 +92,7 @@ class Dc:
   v: Any = dataclasses.field(default_factory=lambda: 77)
 
   def __post_init__(self):
+    maybe_fail()
     self.fn = "Dc"
     self.view = {"u": self.u, "v": self.v}
     CALL_LOG.append(("Dc", self))
